@@ -28,6 +28,8 @@ def config_letters():
     c = {
         'absent': None, 'empty': b'', 'dir': 'DIR', 'garbage': bytes(range(1, 256)) + b'\n[snoopy\nx\n',
         'sectiononly': b'[snoopy]\n',
+        # a damaged file: sound lines that set only NON-string options, plus a line the parser rejects (it applies the sound lines and reports an error)
+        'damaged_nonstring': b'[snoopy]\nerror_logging = yes\nsyslog_facility = LOCAL4\nsyslog_level = DEBUG\ndatasource_message_max_length = 300\nlog_message_max_length = 256\nthis line has no separator\n',
         'mf': b'[snoopy]\nmessage_format = F:%{filename}\n',
         'fc_drop': b'[snoopy]\nfilter_chain = only_uid:12345\n',
         'fc_pass': b'[snoopy]\nfilter_chain = only_root\n',
@@ -144,7 +146,7 @@ def run(ck):
         # quick: first letters = every configuration with the short call, plus the long call under the configurations that raise errors / hit limits
         # quick: first letters = every vfork letter, the short call under every configuration that sets or breaks something, and the long call
         # under the configurations that raise errors / hit limits (thorough: every letter first)
-        setting = ('mf', 'fc_drop', 'out_file2', 'out_stdout', 'out_stderr', 'out_sock', 'out_devtty', 'out_filetpl', 'errlog', 'errlog_only', 'fac', 'lvl', 'ident', 'dsmax', 'logmax', 'maxmax', 'all',
+        setting = ('damaged_nonstring', 'mf', 'fc_drop', 'out_file2', 'out_stdout', 'out_stderr', 'out_sock', 'out_devtty', 'out_filetpl', 'errlog', 'errlog_only', 'fac', 'lvl', 'ident', 'dsmax', 'logmax', 'maxmax', 'all',
                    'inv_out', 'inv_fac', 'inv_ds', 'dup_out', 'dup_out2', 'dup_all', 'cont', 'garbage', 'dir', 'out_syslog', 'out_syslog_local3', 'out_syslog_emptyident', 'out_devlog', 'out_file', 'out_stdout_emptyarg', 'out_file_emptyarg')
         firsts = [n for n in names if n.endswith('/v') or (n.endswith('/s') and n.split('/')[0] in setting) or n.split('/')[0] in ('logmax', 'dsmax', 'errlog', 'all', 'garbage', 'inv_out', 'dup_out')] if ck.tier == 'quick' else names
         pairs = [(a, b) for a in firsts for b in names]
